@@ -2,6 +2,7 @@
   C16 — The v1.2.0 upgrade and store migrations preserve locked value.
 -/
 import C4E.Upgrade
+import C4E.Lemmas.SortLemmas
 namespace C4E.Props.C16
 open C4E C4E.Vest C4E.Upgrade
 
@@ -100,6 +101,281 @@ theorem updateTrace_keeps (t : Trace) : (updateTrace t).id = t.id ∧ (updateTra
   unfold updateTrace; split
   · exact ⟨rfl, rfl⟩
   · split <;> exact ⟨rfl, rfl⟩
+
+/-! ### parameter migrations (consensus version 2 → 3) -/
+
+open C4E.Minter in
+/-- what a legacy minter says: the configuration selected by its type tag -/
+def legacyCfg (m : LegacyM) : Minter.Cfg :=
+  if m.type = tExp then (match m.exp with | some (a, st, mu) => .exp a st mu | none => .noMint)
+  else if m.type = tLin then (match m.lin with | some a => .lin a | none => .noMint)
+  else .noMint
+
+theorem cleanCfg_legacy (m : LegacyM) (h : (Minter.cleanCfg (legacyToRaw m)).isSome = true) :
+    Minter.cleanCfg (legacyToRaw m) = some (legacyCfg m) := by
+  unfold legacyToRaw legacyCfg Minter.cleanCfg at *
+  by_cases he : m.type = tExp
+  · simp only [he, if_true] at h ⊢
+    cases hx : m.exp with
+    | none => rw [hx] at h; simp at h
+    | some t =>
+      obtain ⟨a, st, mu⟩ := t
+      rw [hx] at h
+      simp only [] at h ⊢
+      split at h
+      · simp at h
+      · split at h
+        · simp at h
+        · split at h
+          · simp at h
+          · split at h
+            · simp at h
+            · rename_i h1 h2 h3 h4
+              simp [h1, h2, h3, h4]
+  · simp only [he, if_false] at h ⊢
+    by_cases hl : m.type = tLin
+    · simp only [hl, if_true] at h ⊢
+      cases hx : m.lin with
+      | none => rw [hx] at h; simp at h
+      | some a =>
+        rw [hx] at h
+        simp only [] at h ⊢
+        split at h
+        · simp at h
+        · split at h
+          · simp at h
+          · rename_i h1 h2
+            simp [h1, h2]
+    · simp only [hl, if_false]
+
+/-- the validation loop returns its input with each configuration cleaned -/
+theorem validateLoop_eq (multi : Bool) : ∀ (l : List Minter.RawMinter) (id : Nat) (prev : Int) (out : List Minter.M),
+    Minter.validateLoop multi id prev l = some out →
+    out = l.map (fun r => { seq := r.seq, endT := r.endT, cfg := (Minter.cleanCfg r).getD .noMint }) ∧
+    ∀ r ∈ l, (Minter.cleanCfg r).isSome = true
+  | [], _, _, out, h => by
+    simp only [Minter.validateLoop, Option.some.injEq] at h
+    subst h; exact ⟨rfl, by intro r hr; cases hr⟩
+  | m :: rest, id, prev, out, h => by
+    unfold Minter.validateLoop at h
+    split at h
+    · cases h
+    · split at h
+      · cases h
+      · split at h
+        · cases h
+        · split at h
+          · cases h
+          · rename_i c hc
+            split at h
+            · cases h
+            · rename_i ms hms
+              cases h
+              obtain ⟨i1, i2⟩ := validateLoop_eq multi rest _ _ ms hms
+              refine ⟨?_, ?_⟩
+              · simp only [List.map_cons, hc, Option.getD_some, i1]
+              · intro r hr
+                rcases List.mem_cons.mp hr with rfl | hr
+                · simp [hc]
+                · exact i2 r hr
+
+def seqLt (a b : LegacyM) : Bool := a.seq < b.seq
+
+/-- the legacy validation only accepts strictly consecutive sequence ids -/
+theorem legacyLoop_asc (multi : Bool) : ∀ (l : List LegacyM) (id : Nat) (prev : Int),
+    legacyLoop multi id prev l = true → Asc (fun a b => decide (a.seq < b.seq)) l ∧ (∀ m, l.head? = some m → m.seq ≠ 0 ∧ (id ≠ 0 → m.seq = id + 1))
+  | [], _, _, _ => ⟨trivial, by intro m hm; cases hm⟩
+  | m :: rest, id, prev, h => by
+    unfold legacyLoop at h
+    simp only [Bool.and_eq_true, Bool.not_eq_true'] at h
+    obtain ⟨⟨⟨⟨h1, _⟩, _⟩, _⟩, h5⟩ := h
+    obtain ⟨i1, i2⟩ := legacyLoop_asc multi rest m.seq (m.endT.getD prev) h5
+    have hm : m.seq ≠ 0 ∧ (id ≠ 0 → m.seq = id + 1) := by
+      unfold Minter.idBad at h1
+      by_cases hid : id = 0
+      · simp [hid] at h1; exact ⟨by omega, by intro c; exact absurd hid c⟩
+      · simp [hid] at h1; exact ⟨by omega, fun _ => h1⟩
+    refine ⟨?_, by intro x hx; simp at hx; subst hx; exact hm⟩
+    cases rest with
+    | nil => trivial
+    | cons b r =>
+      have := (i2 b rfl).2 hm.1
+      exact ⟨by simp; omega, i1⟩
+
+/-- **the migrated minter parameters describe the same schedule**: whenever the migration
+    succeeds, the stored parameters have the legacy denom and start time, and their minters are
+    exactly the legacy minters in sequence order — same ids, same end times, and the configuration
+    (kind, amount, step length, multiplier) selected by the legacy type tag -/
+theorem minter_migration_same_schedule (d : String) (st : Int) (ms : List LegacyM) (p : Minter.Params)
+    (h : migrateMinterV3 d st ms = some p) :
+    p.denom = d ∧ p.start = st ∧
+    p.minters = (sortLegacy ms).map (fun l => { seq := l.seq, endT := l.endT, cfg := legacyCfg l }) := by
+  unfold migrateMinterV3 at h
+  split at h
+  · cases h
+  · rename_i hv
+    simp only [Bool.not_eq_true', Bool.not_eq_false] at hv
+    unfold legacyValid at hv
+    simp only [Bool.and_eq_true] at hv
+    obtain ⟨_, hloop⟩ := hv
+    obtain ⟨hasc, _⟩ := legacyLoop_asc _ _ _ _ hloop
+    unfold Minter.validate at h
+    split at h
+    · cases h
+    · split at h
+      · cases h
+      · split at h
+        · cases h
+        · rename_i outms hvm
+          cases h
+          refine ⟨rfl, rfl, ?_⟩
+          simp only []
+          unfold Minter.validateMinters at hvm
+          split at hvm
+          · cases hvm
+          · split at hvm
+            · cases hvm
+            · simp only [] at hvm
+              have hsorted : Minter.sortMinters ((sortLegacy ms).map legacyToRaw) = (sortLegacy ms).map legacyToRaw := by
+                unfold Minter.sortMinters
+                apply sortBy_of_asc
+                exact asc_map (fun a b => decide (a.seq < b.seq)) _ legacyToRaw (by intro a b hab; simp only [legacyToRaw]; exact hab) _ hasc
+              rw [hsorted] at hvm
+              obtain ⟨e1, e2⟩ := validateLoop_eq _ _ _ _ _ hvm
+              rw [e1, List.map_map]
+              apply List.map_congr_left
+              intro l hl
+              have hs := e2 (legacyToRaw l) (List.mem_map.mpr ⟨l, hl, rfl⟩)
+              simp only [Function.comp]
+              rw [cleanCfg_legacy l hs]
+              simp [legacyToRaw]
+
+theorem cleanCfg_some_of_ok (m : LegacyM) (hok : legacyMinterOk m = true)
+    (hpos : m.type = tExp → ∀ a s mu, m.exp = some (a, s, mu) → 0 < a) :
+    (Minter.cleanCfg (legacyToRaw m)).isSome = true := by
+  unfold legacyMinterOk at hok
+  unfold legacyToRaw Minter.cleanCfg
+  by_cases hn : m.type = tNo
+  · have h1 : ¬ m.type = tExp := by rw [hn]; decide
+    have h2 : ¬ m.type = tLin := by rw [hn]; decide
+    simp [h1, h2]
+  · simp only [hn, if_false] at hok
+    by_cases hl : m.type = tLin
+    · have h1 : ¬ m.type = tExp := by rw [hl]; decide
+      simp only [hl, if_true, Bool.and_eq_true] at hok
+      obtain ⟨⟨_, he⟩, ha⟩ := hok
+      simp only [h1, hl, if_false, if_true]
+      cases hx : m.lin with
+      | none => rw [hx] at ha; simp at ha
+      | some a =>
+        rw [hx] at ha
+        simp only [Bool.not_eq_true', decide_eq_false_iff_not] at ha
+        have : m.endT.isNone = false := by cases hh : m.endT <;> simp_all
+        have hne : ¬ tLin = tExp := by decide
+        simp [this, ha, hne]
+    · simp only [hl, if_false] at hok
+      by_cases he : m.type = tExp
+      · simp only [he, if_true, Bool.and_eq_true] at hok
+        obtain ⟨_, hx⟩ := hok
+        simp only [he, if_true]
+        cases hexp : m.exp with
+        | none => rw [hexp] at hx; simp at hx
+        | some t =>
+          obtain ⟨a, st, mu⟩ := t
+          rw [hexp] at hx
+          simp only [Bool.and_eq_true, Bool.not_eq_true', decide_eq_false_iff_not] at hx
+          obtain ⟨⟨h1, h2⟩, h3⟩ := hx
+          have hp := hpos he a st mu hexp
+          simp [h1, h2, h3, hp]
+      · simp [he] at hok
+
+theorem legacyLoop_implies_validateLoop (multi : Bool) : ∀ (l : List LegacyM) (id : Nat) (prev : Int),
+    legacyLoop multi id prev l = true →
+    (∀ m ∈ l, m.type = tExp → ∀ a s mu, m.exp = some (a, s, mu) → 0 < a) →
+    (Minter.validateLoop multi id prev (l.map legacyToRaw)).isSome = true
+  | [], _, _, _, _ => rfl
+  | m :: rest, id, prev, h, hpos => by
+    unfold legacyLoop at h
+    simp only [Bool.and_eq_true, Bool.not_eq_true'] at h
+    obtain ⟨⟨⟨⟨h1, h2⟩, h3⟩, h4⟩, h5⟩ := h
+    have ih := legacyLoop_implies_validateLoop multi rest m.seq (m.endT.getD prev) h5 (fun x hx => hpos x (by simp [hx]))
+    have hc := cleanCfg_some_of_ok m h4 (hpos m (by simp))
+    simp only [List.map_cons]
+    unfold Minter.validateLoop
+    have e1 : (legacyToRaw m).seq = m.seq := rfl
+    have e2 : (legacyToRaw m).endT = m.endT := rfl
+    have e3 : (rest.map legacyToRaw).isEmpty = rest.isEmpty := by cases rest <;> rfl
+    rw [e1, e2, e3]
+    simp only [h1, h2, h3, Bool.false_eq_true, if_false]
+    cases hcc : Minter.cleanCfg (legacyToRaw m) with
+    | none => rw [hcc] at hc; simp at hc
+    | some c =>
+      simp only []
+      cases hr : Minter.validateLoop multi m.seq (m.endT.getD prev) (rest.map legacyToRaw) with
+      | none => rw [hr] at ih; simp at ih
+      | some out => simp
+
+/-- **when the migration succeeds**: every legacy parameter set that the legacy validation accepts
+    migrates, provided the denom is well formed and no exponential period has amount zero (the new
+    validation requires a positive amount; the legacy one only a non-negative one) -/
+theorem minter_migration_succeeds (d : String) (st : Int) (ms : List LegacyM)
+    (hv : legacyValid st ms = true) (hd0 : d.length ≠ 0) (hd : validDenom d = true)
+    (hpos : ∀ m ∈ ms, m.type = tExp → ∀ a s mu, m.exp = some (a, s, mu) → 0 < a) :
+    (migrateMinterV3 d st ms).isSome = true := by
+  unfold migrateMinterV3
+  simp only [hv, Bool.not_true, Bool.false_eq_true, if_false]
+  unfold legacyValid at hv
+  simp only [Bool.and_eq_true, Bool.not_eq_true', decide_eq_false_iff_not] at hv
+  obtain ⟨hlen, hloop⟩ := hv
+  obtain ⟨hasc, _⟩ := legacyLoop_asc _ _ _ _ hloop
+  unfold Minter.validate
+  simp only [hd0, hd, if_false, Bool.not_true, Bool.false_eq_true]
+  have hlen2 : ((sortLegacy ms).map legacyToRaw).length = ms.length := by
+    rw [List.length_map]; exact length_sortBy _ _
+  have hsorted : Minter.sortMinters ((sortLegacy ms).map legacyToRaw) = (sortLegacy ms).map legacyToRaw := by
+    unfold Minter.sortMinters
+    apply sortBy_of_asc
+    exact asc_map (fun a b => decide (a.seq < b.seq)) _ legacyToRaw (by intro a b hab; simp only [legacyToRaw]; exact hab) _ hasc
+  have hnil : ((sortLegacy ms).map legacyToRaw).any (·.isNil) = false := by
+    rw [List.any_eq_false]; intro x hx
+    obtain ⟨l, _, rfl⟩ := List.mem_map.mp hx
+    simp [legacyToRaw]
+  have hpos' : ∀ m ∈ sortLegacy ms, m.type = tExp → ∀ a s mu, m.exp = some (a, s, mu) → 0 < a :=
+    fun m hm => hpos m ((mem_sortBy_iff _ m ms).mp hm)
+  have hmulti : (decide (((sortLegacy ms).map legacyToRaw).length > 1)) = decide ((sortLegacy ms).length > 1) := by
+    rw [List.length_map]
+  have hl := legacyLoop_implies_validateLoop _ _ _ _ hloop hpos'
+  unfold Minter.validateMinters
+  rw [hlen2]
+  simp only [hlen, if_false, hnil, Bool.false_eq_true, hsorted, hmulti]
+  cases hr : Minter.validateLoop (decide ((sortLegacy ms).length > 1)) 0 st ((sortLegacy ms).map legacyToRaw) with
+  | none => rw [hr] at hl; simp at hl
+  | some out => simp
+
+/-- the hypothesis on exponential amounts cannot be dropped: a legacy parameter set with an
+    exponential period of amount zero passes the legacy validation and is refused by the migration
+    (the upgrade then aborts; nothing is written) -/
+theorem legacy_zero_exp_not_migratable :
+    legacyValid 0 [{ seq := 1, endT := none, type := tExp, exp := some (0, 1, 0) }] = true ∧
+    migrateMinterV3 "umint" 0 [{ seq := 1, endT := none, type := tExp, exp := some (0, 1, 0) }] = none := by
+  decide
+
+/-- whenever the migration succeeds the stored parameters are accepted by `Params.Validate`
+    (so everything proved about validated parameters, C02 / C10, applies to them) -/
+theorem minter_migration_valid (d : String) (st : Int) (ms : List LegacyM) (p : Minter.Params)
+    (h : migrateMinterV3 d st ms = some p) : ∃ raw, Minter.validate raw = some p := by
+  unfold migrateMinterV3 at h
+  split at h
+  · cases h
+  · exact ⟨_, h⟩
+
+/-- the distributor migration rewrites exactly the legacy list, and only a list that validates -/
+theorem distr_migration_same_shares (e : Distr.Env) (subs ns : List Distr.SubD) (h : migrateDistrV3 e subs = some ns) :
+    ns = subs ∧ Distr.paramsValid e ns = true := by
+  unfold migrateDistrV3 at h
+  split at h
+  · rename_i hv; cases h; exact ⟨rfl, hv⟩
+  · cases h
 
 theorem nonvacuous : sum ≤ ({ name := "Validators pool", vtype := "Validators", lockStart := 0, lockEnd := 1, initially := 100000000000000, withdrawn := 5, sent := 7 } : Pool).locked := by
   decide
